@@ -441,8 +441,8 @@ class C08(Check):
         if n_loops(forest) and nsub:
             ctx.nontriv((variant, sk))
         ctx.outcome(
-            "%s%d subcircuit(s), %s visits"
-            % ("" if coherent else "straddling, ", min(nsub, 3), "0" if not V else ("1-3" if len(V) <= 3 else ("4-12" if len(V) <= 12 else ">12")))
+            "%s%s subcircuit(s), %s visits"
+            % ("" if coherent else "straddling, ", nsub if nsub < 3 else "3+", "0" if not V else ("1-3" if len(V) <= 3 else ("4-12" if len(V) <= 12 else ">12")))
         )
 
         # ---- parse (and override)
